@@ -49,6 +49,44 @@ Theorem confusion_matrix_relabelling : forall n pi nm b b' i j, perm_on n pi -> 
   mat_at (fn_of mccm_spec (n, nm) b') (pi i) (pi j) = mat_at (fn_of mccm_spec (n, nm) b) i j.
 Proof. exact mccm_relabel. Qed.
 
+(* ---- score inputs: permute the score columns (column pi j of the new row = column j of the old row; sg is
+        the inverse of pi on the range) and relabel the targets ---- *)
+(* top-k rank rule: symmetric without any proviso *)
+Theorem topk_rank_rule_symmetric : forall n pi sg k r y, perm_on n pi -> perm_on n sg -> inverse_on n pi sg ->
+  List.length r = n -> inrange n y = true -> correct_topk k (permute_cols sg r) (pi y) = correct_topk k r y.
+Proof. exact topk_symmetric. Qed.
+Theorem topk_accuracy_score_input_is_relabelled : forall n pi sg a k rows t, perm_on n pi -> perm_on n sg -> inverse_on n pi sg ->
+  Nat.eqb k 1 = false -> Forall (fun r => List.length r = n) rows -> forallb (inrange n) t = true ->
+  acc_relabelled pi (a, Some n, k) (Logits rows, t) (logits_relabel pi sg rows t).
+Proof. exact acc_relabelled_logits_topk. Qed.
+(* argmax: exact PROVISO = every row has a strict maximum ([strict_max]: one index whose score is strictly
+   above every other score); then argmax commutes with the permutation and the batch is [relabelled] *)
+Theorem argmax_commutes_with_column_permutation : forall n pi sg r i, perm_on n pi -> perm_on n sg -> inverse_on n pi sg ->
+  List.length r = n -> strict_max r i -> argmax (permute_cols sg r) = pi (argmax r).
+Proof. exact argmax_relabel. Qed.
+Theorem score_input_is_relabelled : forall n pi sg rows t, perm_on n pi -> perm_on n sg -> inverse_on n pi sg ->
+  Forall (fun r => List.length r = n /\ exists i, strict_max r i) rows ->
+  relabelled pi (Logits rows, t) (logits_relabel pi sg rows t).
+Proof. exact relabelled_logits. Qed.
+(* without the proviso the first-index rule breaks the symmetry: a tie at the maximum *)
+Theorem argmax_symmetry_without_proviso_refuted :
+  exists pi sg r, perm_on 2 pi /\ perm_on 2 sg /\ inverse_on 2 pi sg /\ List.length r = 2%nat /\
+                  argmax (permute_cols sg r) <> pi (argmax r).
+Proof.
+  exists (fun c => if c =? 0 then 1 else if c =? 1 then 0 else c), (fun c => if c =? 0 then 1 else if c =? 1 then 0 else c), [1; 1].
+  assert (Hp : perm_on 2 (fun c => if c =? 0 then 1 else if c =? 1 then 0 else c)).
+  { split.
+    - intros a b. destruct (Z.eqb_spec a 0), (Z.eqb_spec a 1), (Z.eqb_spec b 0), (Z.eqb_spec b 1); lia.
+    - intros c H. unfold inrange in *. apply andb_prop in H as [H1 H2]. apply Z.leb_le in H1. apply Z.ltb_lt in H2.
+      destruct (Z.eqb_spec c 0), (Z.eqb_spec c 1); try reflexivity; lia. }
+  repeat split; try exact (proj1 Hp); try exact (proj2 Hp); try reflexivity.
+  - unfold inrange in H. apply andb_prop in H as [H1 H2]. apply Z.leb_le in H1. apply Z.ltb_lt in H2.
+    destruct (Z.eqb_spec c 0), (Z.eqb_spec c 1); cbn; lia.
+  - unfold inrange in H. apply andb_prop in H as [H1 H2]. apply Z.leb_le in H1. apply Z.ltb_lt in H2.
+    destruct (Z.eqb_spec c 0), (Z.eqb_spec c 1); cbn; lia.
+  - vm_compute. discriminate.
+Qed.
+
 (* ---- duplication of the batch ---- *)
 Theorem precision_duplication : forall a nc b, aligned b -> (a = Weighted -> targets_in (ncls nc) b) ->
   fn_of mcprec_spec (a, nc) (mc_cat b b) = fn_of mcprec_spec (a, nc) b.
@@ -135,3 +173,8 @@ Print Assumptions binary_recall_monotone.
 Print Assumptions binary_f1_monotone.
 Print Assumptions binary_confusion_matrix_monotone.
 Print Assumptions multilabel_accuracy_monotone.
+Print Assumptions topk_rank_rule_symmetric.
+Print Assumptions topk_accuracy_score_input_is_relabelled.
+Print Assumptions argmax_commutes_with_column_permutation.
+Print Assumptions score_input_is_relabelled.
+Print Assumptions argmax_symmetry_without_proviso_refuted.
